@@ -86,6 +86,11 @@ def units(tier, seed):
                 if len(eng) == 3 and "LOC" == eng[2] and k % 2:
                     d["sprout"] = {"kind": "nbclocal", "L": 2}
                 descs.append(d)
+    # memoising problems (use_cache=True), a different objective per level: a value cached for one objective must never
+    # be served for another (the sprout seed is evaluated on both levels)
+    for k2, eng in enumerate([e for e in shapes_h2() if e[1] in ("SEA", "DE", "SHADE", "SEAX", "GA", "DEd", "MWEA")][:: (1 if tier == "thorough" else 3)]):
+        descs.append(dict(engines=list(eng), gens=1 + k2 % 2, box=boxes[k2 % 3], obj=objs[k2 % 4], maximize=bool(k2 % 2), Mh=3, seed=s, levelshift=True, use_cache=True,
+                          sprout={"kind": ("simple", "nbc")[k2 % 2], "L": 2}))
     us = [{"kind": "run", "descs": c} for c in chunks(descs, 25)]
     rshapes = rep_shapes() if tier == "thorough" else rep_shapes()[14:]
     for k, eng in enumerate(rshapes):
